@@ -64,18 +64,18 @@ DIRECT_OPS = ['map', 'starmap', 'filter', 'accumulate', 'slice', 'partition', 'p
 PROFILES = {
     # property -> (node pool, weights of modes, options)
     'C01': dict(pool=SYNC_OPS, collect_cache=True, modes=['loopless', 'loopless', 'async', 'threaded'], md=0.3, sinks=['sync'], feedback=True, forward=True),
-    'C10': dict(collect_md_cache=True, pool=SYNC_OPS + ASYNC_LOSSLESS + LOSSY, modes=['loopless', 'async', 'async', 'threaded'], md=0.85, falsy_dedup=True,
+    'C10': dict(window_survives_failure=True, collect_md_cache=True, pool=SYNC_OPS + ASYNC_LOSSLESS + LOSSY, modes=['loopless', 'async', 'async', 'threaded'], md=0.85, falsy_dedup=True,
                 sinks=['sync', 'native', 'tornado', 'future']),
     'C02': dict(restarts=True, pool=ASYNC_LOSSLESS + ['map', 'filter', 'zip', 'union', 'accumulate', 'sliding_window', 'partition', 'flatten',
                                         'zip_latest', 'combine_latest', 'collect', 'pluck', 'starmap', 'slice', 'unique'],
                 need=ASYNC_LOSSLESS + ['zip', 'union'], modes=['async', 'async', 'async', 'threaded'], md=0.3, stalls=True, forward=True,
                 sinks=['sync', 'native', 'tornado', 'future']),
-    'C03': dict(pool=['buffer', 'map_async', 'zip', 'rate_limit', 'map', 'filter', 'partition', 'sliding_window',
+    'C03': dict(restarts=True, pool=['buffer', 'map_async', 'zip', 'rate_limit', 'map', 'filter', 'partition', 'sliding_window',
                       'timed_window', 'union', 'accumulate', 'delay', 'partition_t', 'flatten', 'slice',
                       'zip_latest', 'combine_latest', 'collect', 'pluck'],
                 need=['buffer', 'map_async', 'zip'], modes=['async', 'async', 'threaded'], md=0.2, await_all=True, stalls=True, forward=True,
                 sinks=['native', 'tornado', 'future', 'sync']),
-    'C04': dict(pool=SYNC_OPS + ASYNC_LOSSLESS + LOSSY, need=ASYNC_LOSSLESS + LOSSY + ['sink_async'],
+    'C04': dict(flatten_serial=True, pool=SYNC_OPS + ASYNC_LOSSLESS + LOSSY, need=ASYNC_LOSSLESS + LOSSY + ['sink_async'],
                 modes=['async', 'async', 'async', 'threaded'], md=1.0, refs=True, inject_failures=True, stalls=True, falsy_dedup=True, lazy_attach=True,
                 sinks=['native', 'tornado', 'future', 'sync']),
     'C05': dict(pool=SYNC_OPS + ASYNC_LOSSLESS + LOSSY, modes=['loopless', 'async', 'async', 'threaded'], md=1.0, refs=True, stalls=True, falsy_dedup=True,
@@ -85,7 +85,7 @@ PROFILES = {
                 sinks=['native', 'tornado', 'future', 'sync'], bursts=True),
     'C13': dict(off_grid=True, pool=['rate_limit', 'delay', 'map', 'filter', 'union', 'buffer'], need=['rate_limit', 'delay'], stalls=True,
                 modes=['async', 'async', 'threaded'], md=0.2, sinks=['sync', 'native', 'tornado', 'future'], bursts=True),
-    'C14': dict(late_subscriber=True, pool=['latest', 'map', 'filter', 'union'], need=['latest'], feedback_sink=True, modes=['async', 'async', 'threaded'], md=0.4, stalls=True,
+    'C14': dict(late_feeder=True, late_subscriber=True, pool=['latest', 'map', 'filter', 'union'], need=['latest'], feedback_sink=True, modes=['async', 'async', 'threaded'], md=0.4, stalls=True,
                 sinks=['native', 'tornado', 'future', 'sync'], bursts=True),
     'C16': dict(pool=DIRECT_OPS + ['rate_limit'], modes=['loopless', 'async', 'async', 'threaded'], md=1.0, refs=True, forward=True,
                 sinks=['sync', 'native', 'tornado', 'future']),
@@ -460,6 +460,15 @@ class G:
             f = self.add({'op': 'map', 'up': [0], 'fn': ['falsy', self.pick([2, 3]), 0, self.pick([0, 1])]}, ('any', True))
             self.add({'op': 'partition_unique', 'up': [f], 'n': m, 'keep': self.pick(['first', 'last', 'last']), 'key': ['wmod', m]},
                      ('fix', tuple(('any', True) for _ in range(m))))
+        if pf.get('flatten_serial') and mode != 'loopless' and self.chance(0.12):
+            # one element split into pieces that are then handled strictly one after the other:
+            # src -> map(k tagged copies) -> flatten -> buffer -> slow consumer
+            f = self.add({'op': 'map', 'up': [0], 'fn': ['fanout', self.pick([2, 3])]}, ('var', 0, ('any', True)))
+            fl = self.add({'op': 'flatten', 'up': [f]}, ('any', True))
+            b = self.add({'op': self.pick(['buffer', 'buffer', 'delay']), 'up': [fl], 'n': self.pick([1, 2, 5]),
+                          'interval': self.pick(INTERVALS)}, ('any', True))
+            self.add({'op': 'sink', 'up': [b], 'kind': self.pick(['native', 'tornado', 'future']),
+                      'lat': [self.pick([0.25, 0.5, 1, 2]) for _ in range(self.pick([1, 2, 3]))]}, None)
         rolling_collect = False
         if pf.get('collect_md_cache') and self.chance(0.12):
             # a rolling "last k" collector: caller-supplied bounded caches for the elements and for their metadata
@@ -587,6 +596,13 @@ class G:
                         all(any(u != sn['id'] and not (self.graph[u]['op'] == 'source' and self.graph[u].get('unbound')) for u in k['up'])
                             for k in kids) and self.chance(0.5):
                     sn['unbound'] = True
+        if pf.get('late_feeder') and mode == 'threaded' and not feedback and self.chance(0.3):
+            # a second, plain entry point connected to a `latest` node after the pipeline was built: it has no loop
+            # of its own, so what is emitted there reaches the node on the caller's thread
+            lat = [n for n in self.graph if n['op'] == 'latest']
+            if lat:
+                fsrc = self.add({'op': 'source'}, INT)
+                feedback.append({'from': fsrc, 'to': self.pick(lat)['id']})
         # producers
         entries = [n['id'] for n in self.graph if n['op'] == 'source']
         producers = []
@@ -672,6 +688,13 @@ class G:
                     n = self.pick(targets)
                     fails.append({'node': n['id'], 'call': r.randrange(0, 6),
                                   'when': self.pick(['pre', 'post']) if n.get('kind') in ('native', 'tornado') else 'pre'})
+        if pf.get('window_survives_failure') and mode == 'loopless' and not feedback and self.chance(0.25):
+            # a consumer below a sliding_window raises once and the producer carries on: the windows that follow
+            # must still carry the metadata of exactly their own members
+            below = [n for n in self.graph if n['op'] == 'sink' and n.get('kind', 'sync') == 'sync'
+                     and self.graph[n['up'][0]]['op'] == 'sliding_window']
+            if below:
+                fails.append({'node': self.pick(below)['id'], 'call': r.randrange(0, 5), 'when': 'pre'})
         sc = {'format': 1, 'family': 'pipeline', 'property': self.prop, 'seed': seed, 'index': index,
               'mode': mode, 'sched_seed': r.randrange(10000), 'tiebreak': self.pick(['fifo', 'fifo', 'lifo', 'seeded']),
               'tiebreak_seed': r.randrange(1000), 'graph': self.graph, 'producers': producers,
